@@ -251,7 +251,7 @@ def self_test():
 
 
 LAWS = [
-    machine_law("history", make_machine, replay_history, {"quick": 40, "thorough": 120}, {"quick": 30, "thorough": 60}, shards={"quick": 4, "thorough": 16}),
-    given_law("vk_stability", c04.vk_cases(24), stab_body, {"quick": 15, "thorough": 60}, shards={"quick": 2, "thorough": 16}),
+    machine_law("history", make_machine, replay_history, {"quick": 60, "thorough": 400}, {"quick": 30, "thorough": 60}, shards={"quick": 6, "thorough": 16}),
+    given_law("vk_stability", c04.vk_cases(24), stab_body, {"quick": 25, "thorough": 200}, shards={"quick": 4, "thorough": 16}),
     plain_law("long_runs", long_cases, long_body, shards={"quick": 4, "thorough": 4}),
 ]
